@@ -32,16 +32,16 @@ theorem free_ok {v : Nat} {b : Buf} {L : Ledger} (hL : LiveIn b L) (hbd : Bounde
     (try simp only [Buf.ownId, Option.some.injEq, forall_eq', reduceCtorEq, false_implies, implies_true] at hL) <;>
     buf_wp <;> mem_finish
 
-theorem ctorCap_ok (v n : Nat) {b : Buf} {L : Ledger} (hL : LiveIn b L) (hbd : Bounded L) :
-    OkM (do b.destroy; Buf.ctorCap n) L (fun b' L' => LStep b.ownId b'.ownId L L' ∧ BInv v b' ∧ b'.data = []) := by
+theorem ctorCap_ok (v n k : Nat) {b : Buf} {L : Ledger} (hL : LiveIn b L) (hbd : Bounded L) :
+    OkM (do b.destroy; Buf.ctorCap n k) L (fun b' L' => LStep b.ownId b'.ownId L L' ∧ BInv v b' ∧ b'.data = []) := by
   unfold LiveIn Bounded at *
   obtain ⟨st, s, e, cap⟩ := b
   cases st <;>
     (try simp only [Buf.ownId, Option.some.injEq, forall_eq', reduceCtorEq, false_implies, implies_true] at hL) <;>
     buf_wp <;> mem_finish
 
-theorem ctorData_ok (v : Nat) (d : List Byte) {b : Buf} {L : Ledger} (hL : LiveIn b L) (hbd : Bounded L) :
-    OkM (do b.destroy; Buf.ctorData d) L (fun b' L' => LStep b.ownId b'.ownId L L' ∧ BInv v b' ∧ b'.data = d) := by
+theorem ctorData_ok (v : Nat) (d : List Byte) (k : Nat) {b : Buf} {L : Ledger} (hL : LiveIn b L) (hbd : Bounded L) :
+    OkM (do b.destroy; Buf.ctorData d k) L (fun b' L' => LStep b.ownId b'.ownId L L' ∧ BInv v b' ∧ b'.data = d) := by
   unfold LiveIn Bounded at *
   obtain ⟨st, s, e, cap⟩ := b
   cases st <;>
@@ -64,23 +64,23 @@ theorem contents_ok {v : Nat} {b : Buf} {L : Ledger} (hb : BInv v b) (hL : LiveI
   obtain ⟨c, L', hc, rfl, rfl⟩ := this
   exact hc
 
-theorem assign_ok {v : Nat} {b : Buf} {L : Ledger} (hb : BInv v b) (hL : LiveIn b L) (hbd : Bounded L) (d : List Byte) :
-    OkM (b.assign d) L (fun b' L' => LStep b.ownId b'.ownId L L' ∧ BInv v b' ∧ b'.data = d) := by
+theorem assign_ok {v : Nat} {b : Buf} {L : Ledger} (hb : BInv v b) (hL : LiveIn b L) (hbd : Bounded L) (d : List Byte) (k : Nat) :
+    OkM (b.assign d k) L (fun b' L' => LStep b.ownId b'.ownId L L' ∧ BInv v b' ∧ b'.data = d) := by
   unfold LiveIn Bounded at *
   buf_method b hb hL
 
-theorem assignSelf_ok {v : Nat} {b : Buf} {L : Ledger} (hb : BInv v b) (hL : LiveIn b L) (hbd : Bounded L) :
-    OkM b.assignSelf L (fun b' L' => LStep b.ownId b'.ownId L L' ∧ BInv v b' ∧ b'.data = b.data) := by
+theorem assignSelf_ok {v : Nat} {b : Buf} {L : Ledger} (hb : BInv v b) (hL : LiveIn b L) (hbd : Bounded L) (k : Nat) :
+    OkM (b.assignSelf k) L (fun b' L' => LStep b.ownId b'.ownId L L' ∧ BInv v b' ∧ b'.data = b.data) := by
   unfold LiveIn Bounded at *
   buf_method b hb hL
 
-theorem prepend_ok {v : Nat} {b : Buf} {L : Ledger} (hb : BInv v b) (hL : LiveIn b L) (hbd : Bounded L) (d : List Byte) :
-    OkM (b.prepend d) L (fun b' L' => LStep b.ownId b'.ownId L L' ∧ BInv v b' ∧ b'.data = d ++ b.data) := by
+theorem prepend_ok {v : Nat} {b : Buf} {L : Ledger} (hb : BInv v b) (hL : LiveIn b L) (hbd : Bounded L) (d : List Byte) (k : Nat) :
+    OkM (b.prepend d k) L (fun b' L' => LStep b.ownId b'.ownId L L' ∧ BInv v b' ∧ b'.data = d ++ b.data) := by
   unfold LiveIn Bounded at *
   buf_method b hb hL
 
-theorem prependSelf_ok {v : Nat} {b : Buf} {L : Ledger} (hb : BInv v b) (hL : LiveIn b L) (hbd : Bounded L) :
-    OkM b.prependSelf L (fun b' L' => LStep b.ownId b'.ownId L L' ∧ BInv v b' ∧ b'.data = b.data ++ b.data) := by
+theorem prependSelf_ok {v : Nat} {b : Buf} {L : Ledger} (hb : BInv v b) (hL : LiveIn b L) (hbd : Bounded L) (k : Nat) :
+    OkM (b.prependSelf k) L (fun b' L' => LStep b.ownId b'.ownId L L' ∧ BInv v b' ∧ b'.data = b.data ++ b.data) := by
   unfold LiveIn Bounded at *
   buf_method b hb hL
 
@@ -94,8 +94,8 @@ theorem rd_rd (m : List Byte) (s n off len : Nat) (h : off + len ≤ n) :
     simp only [hi, this, if_true, Nat.add_assoc]
   · simp [hi]
 
-theorem prependSub_ok {v : Nat} {b : Buf} {L : Ledger} (hb : BInv v b) (hL : LiveIn b L) (hbd : Bounded L) (off len : Nat) (h : off + len ≤ b.e - b.s) :
-    OkM (b.prependSub off len) L (fun b' L' => LStep b.ownId b'.ownId L L' ∧ BInv v b' ∧ b'.data = rd b.data off len ++ b.data) := by
+theorem prependSub_ok {v : Nat} {b : Buf} {L : Ledger} (hb : BInv v b) (hL : LiveIn b L) (hbd : Bounded L) (off len k : Nat) (h : off + len ≤ b.e - b.s) :
+    OkM (b.prependSub off len k) L (fun b' L' => LStep b.ownId b'.ownId L L' ∧ BInv v b' ∧ b'.data = rd b.data off len ++ b.data) := by
   unfold LiveIn Bounded at *
   obtain ⟨st, s, e, cap⟩ := b
   cases st with
@@ -114,13 +114,13 @@ theorem prependSub_ok {v : Nat} {b : Buf} {L : Ledger} (hb : BInv v b) (hL : Liv
   | att m => simp only [BInv] at hb; simp only [] at h; buf_wp; simp only [rd_rd _ _ _ _ _ h]; mem_finish
   | dflt c => simp only [BInv] at hb; simp only [] at h; buf_wp; simp only [rd_rd _ _ _ _ _ h]; mem_finish
 
-theorem prependSubClamped_ok {v : Nat} {b : Buf} {L : Ledger} (hb : BInv v b) (hL : LiveIn b L) (hbd : Bounded L) (off len : Nat) :
-    OkM (b.prependSubClamped off len) L (fun b' L' => LStep b.ownId b'.ownId L L' ∧ BInv v b' ∧ b'.data = (b.data.drop off).take len ++ b.data) := by
+theorem prependSubClamped_ok {v : Nat} {b : Buf} {L : Ledger} (hb : BInv v b) (hL : LiveIn b L) (hbd : Bounded L) (off len k : Nat) :
+    OkM (b.prependSubClamped off len k) L (fun b' L' => LStep b.ownId b'.ownId L L' ∧ BInv v b' ∧ b'.data = (b.data.drop off).take len ++ b.data) := by
   have hlen : b.data.length = b.e - b.s := by
     obtain ⟨st, s, e, cap⟩ := b
     cases st <;> simp only [BInv] at hb <;> simp only [Buf.data, Store.mem, rd_length] <;> grind
   unfold Buf.prependSubClamped
-  refine (prependSub_ok hb hL hbd _ _ (by split <;> split <;> omega)).mono (fun b' L' h => ⟨h.1, h.2.1, ?_⟩)
+  refine (prependSub_ok hb hL hbd _ _ k (by split <;> split <;> omega)).mono (fun b' L' h => ⟨h.1, h.2.1, ?_⟩)
   rw [h.2.2]
   congr 1
   apply List.ext_getElem?
@@ -128,19 +128,19 @@ theorem prependSubClamped_ok {v : Nat} {b : Buf} {L : Ledger} (hb : BInv v b) (h
   simp only [rd_get, List.getElem?_take, List.getElem?_drop]
   grind
 
-theorem resize_ok {v : Nat} {b : Buf} {L : Ledger} (hb : BInv v b) (hL : LiveIn b L) (hbd : Bounded L) (n : Nat) :
-    OkM (b.resize n) L (fun b' L' => LStep b.ownId b'.ownId L L' ∧ BInv v b' ∧ b'.data.length = n ∧
+theorem resize_ok {v : Nat} {b : Buf} {L : Ledger} (hb : BInv v b) (hL : LiveIn b L) (hbd : Bounded L) (n k : Nat) :
+    OkM (b.resize n k) L (fun b' L' => LStep b.ownId b'.ownId L L' ∧ BInv v b' ∧ b'.data.length = n ∧
       ∀ i : Nat, i < n → i < b.data.length → b'.data[i]? = b.data[i]?) := by
   unfold LiveIn Bounded at *
   buf_method b hb hL
 
-theorem append_ok {v : Nat} {b : Buf} {L : Ledger} (hb : BInv v b) (hL : LiveIn b L) (hbd : Bounded L) (d : List Byte) :
-    OkM (b.append d) L (fun b' L' => LStep b.ownId b'.ownId L L' ∧ BInv v b' ∧ b'.data = b.data ++ d) := by
+theorem append_ok {v : Nat} {b : Buf} {L : Ledger} (hb : BInv v b) (hL : LiveIn b L) (hbd : Bounded L) (d : List Byte) (k : Nat) :
+    OkM (b.append d k) L (fun b' L' => LStep b.ownId b'.ownId L L' ∧ BInv v b' ∧ b'.data = b.data ++ d) := by
   unfold LiveIn Bounded at *
   buf_method b hb hL
 
-theorem appendSelf_ok {v : Nat} {b : Buf} {L : Ledger} (hb : BInv v b) (hL : LiveIn b L) (hbd : Bounded L) :
-    OkM b.appendSelf L (fun b' L' => LStep b.ownId b'.ownId L L' ∧ BInv v b' ∧ b'.data = b.data ++ b.data) := by
+theorem appendSelf_ok {v : Nat} {b : Buf} {L : Ledger} (hb : BInv v b) (hL : LiveIn b L) (hbd : Bounded L) (k : Nat) :
+    OkM (b.appendSelf k) L (fun b' L' => LStep b.ownId b'.ownId L L' ∧ BInv v b' ∧ b'.data = b.data ++ b.data) := by
   unfold LiveIn Bounded at *
   buf_method b hb hL
 
@@ -154,8 +154,8 @@ theorem removeBack_ok {v : Nat} {b : Buf} {L : Ledger} (hb : BInv v b) (hL : Liv
   unfold LiveIn Bounded at *
   buf_method b hb hL
 
-theorem reserve_ok {v : Nat} {b : Buf} {L : Ledger} (hb : BInv v b) (hL : LiveIn b L) (hbd : Bounded L) (n : Nat) :
-    OkM (b.reserve n) L (fun b' L' => LStep b.ownId b'.ownId L L' ∧ BInv v b' ∧ b'.data = b.data) := by
+theorem reserve_ok {v : Nat} {b : Buf} {L : Ledger} (hb : BInv v b) (hL : LiveIn b L) (hbd : Bounded L) (n k : Nat) :
+    OkM (b.reserve n k) L (fun b' L' => LStep b.ownId b'.ownId L L' ∧ BInv v b' ∧ b'.data = b.data) := by
   unfold LiveIn Bounded at *
   buf_method b hb hL
 
